@@ -78,36 +78,56 @@ def isolated(fn, *args):
     return res
 
 
-def classify(viols, log, recheck, cap=8):
-    """viols: violation tuples found in an isolated job (case['log_index'] = index in
-    `log` of the program that showed it).  The smallest violation of every feature
-    group (at most `cap` groups) is evaluated again on its own in a fresh child:
+def classify_all(results, recheck_many, cap=200):
+    """results: [(violation tuples, log of the job that found them)], where
+    case['log_index'] = index in that log of the program that showed the violation.
+    Called in the main process; recheck_many(cases) -> {index: still violates}, each
+    case evaluated on its own in a fresh child of a process that executed nothing
+    of qbee.  The smallest
+    violation of each feature group - the one the runner will write a replay for -
+    is evaluated again on its own in a fresh child, for the `cap` smallest groups:
     case['fresh_process'] says whether it shows there too; if it does not, the
     deviation needs the programs executed before it in the same process, which
-    are then made part of the case."""
+    are then made part of the case (and the divergence is named accordingly)."""
     groups = {}
-    for v in viols:
-        key = repr(sorted(v[0].items()))
-        if key not in groups or v[4] < groups[key][4]:
-            groups[key] = v
-    chosen = sorted(groups.values(), key=lambda v: v[4])[:cap]
+    for ri, (viols, log) in enumerate(results):
+        for vi, v in enumerate(viols):
+            key = repr(sorted(v[0].items()))
+            if key not in groups or v[4] < groups[key][0]:
+                groups[key] = (v[4], ri, vi)
+    chosen = [(ri, vi) for _, ri, vi in sorted(groups.values())[:cap]]
+    cases = []
+    for ri, vi in chosen:
+        c = dict(results[ri][0][vi][1])
+        c.pop('log_index', None)
+        cases.append(c)
+    still = recheck_many(cases) if cases else {}
+    verdict = dict((rv, still[i]) for i, rv in enumerate(chosen))
+    # the other members of a group follow their representative (so that the group stays one group)
+    group_verdict = {}
+    for key, (_, ri, vi) in groups.items():
+        if (ri, vi) in verdict:
+            group_verdict[key] = verdict[(ri, vi)]
     out = []
-    for v in viols:
-        feat, case, exp, got, size = v
-        case = dict(case)
-        li = case.pop('log_index', None)
-        if any(v is c for c in chosen):
-            still = isolated(recheck, case)
-            if still:
-                case['fresh_process'] = 'reproduces'
+    for ri, (viols, log) in enumerate(results):
+        for vi, v in enumerate(viols):
+            feat, case, exp, got, size = v
+            case = dict(case)
+            li = case.pop('log_index', None)
+            if (ri, vi) in verdict:
+                if verdict[(ri, vi)]:
+                    case['fresh_process'] = 'reproduces'
+                else:
+                    case['fresh_process'] = 'does-not-reproduce'
+                    case['earlier_programs'] = [list(e) for e in log[:li]] if li is not None else []
+                    feat = dict(feat)
+                    feat['divergence'] = feat['divergence'] + '+process-history'
             else:
-                case['fresh_process'] = 'does-not-reproduce'
-                case['earlier_programs'] = [list(e) for e in log[:li]] if li is not None else []
-                feat = dict(feat)
-                feat['divergence'] = feat['divergence'] + '+process-history'
-        else:
-            case['fresh_process'] = 'not-reevaluated'
-        out.append((feat, case, exp, got, size))
+                case['fresh_process'] = 'not-reevaluated'
+                if group_verdict.get(repr(sorted(feat.items()))) is False:
+                    feat = dict(feat)
+                    feat['divergence'] = feat['divergence'] + '+process-history'
+            out.append((feat, case, exp, got, size))
     return out
 
 
